@@ -28,6 +28,7 @@ class Desc:
     filters: tuple = ()  # sorted canonical filter strings
     maps: tuple = ()
     opaque: bool = False
+    unknown: bool = False  # opaque because the expression is not understood (as opposed to a recognised reordering)
 
     def show(self) -> str:
         a = ", ".join(f"{k}={v}" for k, v in self.args)
@@ -146,7 +147,7 @@ class SeqNormaliser:
                     if body is not None and not node.args and not node.keywords:
                         return self.norm_seq(body, m, depth + 1)
                     return Desc(base=f"{MODEL_CLASS}.{fn.attr}({', '.join(norm(a) for a in node.args)})")
-            return Desc(base=norm(node), opaque=True)
+            return Desc(base=norm(node), opaque=True, unknown=True)
         if isinstance(node, ast.Attribute) and self.is_model_recv(node.value, f):
             m = self.methods.get(node.attr)
             if m is not None:
@@ -177,16 +178,16 @@ class SeqNormaliser:
                 if var not in elt_names:
                     return Desc(base=norm(node), opaque=True)
                 maps = maps + (norm(node.elt).replace(var, "_"),)
-            return Desc(base=inner.base, args=inner.args, filters=tuple(sorted(filters)), maps=maps, opaque=inner.opaque)
+            return Desc(base=inner.base, args=inner.args, filters=tuple(sorted(filters)), maps=maps, opaque=inner.opaque, unknown=inner.unknown)
         if isinstance(node, ast.Name):
             v = self.local_def(f, node.id)
             if v is not None:
                 return self.norm_seq(v, f, depth + 1)
-            return Desc(base=f"<local {node.id}>", opaque=True)
+            return Desc(base=f"<local {node.id}>", opaque=True, unknown=True)
         if isinstance(node, ast.BinOp) and isinstance(node.op, ast.Add):
             l, r = self.norm_seq(node.left, f, depth + 1), self.norm_seq(node.right, f, depth + 1)
-            return Desc(base=f"concat({l.show()}, {r.show()})", opaque=l.opaque or r.opaque)
-        return Desc(base=norm(node), opaque=True)
+            return Desc(base=f"concat({l.show()}, {r.show()})", opaque=l.opaque or r.opaque, unknown=l.unknown or r.unknown)
+        return Desc(base=norm(node), opaque=True, unknown=True)
 
     def _single_return(self, m: Func):
         body = [s for s in m.node.body if not (isinstance(s, ast.Expr) and isinstance(s.value, ast.Constant))]
@@ -389,6 +390,7 @@ class SlotAnalysis:
         self.producers: list[Producer] = []
         self.unclassified: list[tuple[Func, ast.AST, str]] = []
         self.indexed_bases: list[tuple[Func, str, str | None, ast.AST]] = []
+        self.from_values: list[str] = []
 
     def scope_funcs(self) -> list[Func]:
         out = []
@@ -436,12 +438,26 @@ class SlotAnalysis:
         return None
 
     def run(self):
+        from . import slots_av
+
+        A = None
         for f in self.scope_funcs():
+            n0 = len(self.producers)
             self._enumerates(f)
             self._counters(f)
             self._next_counters(f)
             self._template_lists(f)
             self._matrices(f)
+            mine = self.producers[n0:]
+            if any(p.desc.opaque and p.desc.unknown for p in mine):
+                # the syntax does not lead back to the model's accessors: read the producers from what the function computes
+                A = A or slots_av.make_av(self.sm)
+                orig = self.sm.funcs.get((f.rel, f.qualname), f)
+                ex = slots_av.Extract(self.sm, self.N, orig, A).run()
+                fams = {p.family for p in mine}
+                if ex.producers and not ex.unknown and fams <= {p.family for p in ex.producers}:
+                    self.producers[n0:] = ex.producers
+                    self.from_values.append(f.qualname)
         return self
 
     # -- (a) enumerate -----------------------------------------------------
@@ -528,7 +544,7 @@ class SlotAnalysis:
                 base = self.N.norm_seq(loop.iter, f)
                 guard, guard_ok, why = self._counter_guard(loop, aug, x, cvar)
                 filters = tuple(sorted(list(base.filters) + ([guard] if guard else [])))
-                desc = Desc(base=base.base, args=base.args, filters=filters, maps=base.maps, opaque=base.opaque)
+                desc = Desc(base=base.base, args=base.args, filters=filters, maps=base.maps, opaque=base.opaque, unknown=base.unknown)
                 if fam is None:
                     self.unclassified.append((f, loop, f"counter {cvar} over {norm(loop.iter)}"))
                     continue
@@ -578,7 +594,7 @@ class SlotAnalysis:
             else:
                 gtxt = self.N.canon_filter(ast.parse(guard, mode="eval").body, x, f)
             filters = tuple(sorted(list(base.filters) + ([gtxt] if gtxt else [])))
-            desc = Desc(base=base.base, args=base.args, filters=filters, maps=base.maps, opaque=base.opaque)
+            desc = Desc(base=base.base, args=base.args, filters=filters, maps=base.maps, opaque=base.opaque, unknown=base.unknown)
             if fam is None:
                 self.unclassified.append((f, loop, f"next({sorted(counts)}) over {norm(loop.iter)}"))
                 continue
